@@ -11,7 +11,42 @@ import (
 // by job.Prefix) and packages the result. A job with Arg "replay" runs exactly
 // the one execution selected by the prefix.
 func ExploreJob(property string, job Job, deadline time.Time, ex *vrt.Explorer, sample any) *Result {
-	res := &Result{}
+	// A replay divergence means the choice structure of the scenario changed between two executions of
+	// this process. The harness owns every source of nondeterminism inside an execution, but not state
+	// the code under test keeps for the life of the process (a lazily built package-level cache, a
+	// sync.Pool): the execution that builds it has other scheduling points than those that find it built.
+	// Such state reaches a fixed point after a few executions, so the job is started over (nothing of
+	// the abandoned attempt is kept) in the now warmer process; only a job that still diverges after
+	// several restarts is nondeterminism the harness does not own, and that is fatal.
+	const restarts = 4
+	cfg := *ex
+	for attempt := 0; ; attempt++ {
+		fresh := cfg
+		res, diverged := exploreJobOnce(property, job, deadline, &fresh, sample)
+		if diverged == "" {
+			*ex = fresh
+			if attempt > 0 {
+				res.Add("restarts_after_process_global_warmup", int64(attempt))
+			}
+			return res
+		}
+		if attempt >= restarts || strings.HasPrefix(job.Arg, "replay") {
+			panic(diverged)
+		}
+	}
+}
+
+func exploreJobOnce(property string, job Job, deadline time.Time, ex *vrt.Explorer, sample any) (res *Result, diverged string) {
+	defer func() {
+		if r := recover(); r != nil {
+			if s, ok := r.(string); ok && strings.HasPrefix(s, "vrt: replay divergence") {
+				diverged = s
+				return
+			}
+			panic(r)
+		}
+	}()
+	res = &Result{}
 	findings := LoadFindings(property)
 	ex.Deadline = deadline
 	ex.RaceDetail = RaceDetail
@@ -40,8 +75,15 @@ func ExploreJob(property string, job Job, deadline time.Time, ex *vrt.Explorer, 
 	if ex.JobBudget == 0 && !replay {
 		ex.JobBudget = 25000
 	}
+	if !replay {
+		ex.RootSig = job.PrefixSig
+	}
 	children := ex.Explore(job.Prefix, job.Split)
 	res.Children = append(children, ex.Deferred...)
+	res.ChildSigs = append(append([]uint64{}, ex.ChildSigs...), ex.DeferredSigs...)
+	if ex.Restabilised > 0 {
+		res.Add("split_runs_repeated_after_process_global_warmup", int64(ex.Restabilised))
+	}
 	res.Add("execs", int64(ex.Execs))
 	res.Add("steps", int64(ex.Steps))
 	res.Add("nodes", int64(ex.Nodes))
@@ -58,7 +100,7 @@ func ExploreJob(property string, job Job, deadline time.Time, ex *vrt.Explorer, 
 		res.Samples = append(res.Samples, map[string]any{"scenario": sample, "schedules": ex.Samples})
 	}
 	res.Capped = ex.Capped && !replay
-	return res
+	return res, ""
 }
 
 func lastKey(r *Result, sig string) string {
